@@ -88,7 +88,7 @@ def handOut (projectInterpolated : Bool) (advanced : Prov) (projOK : Bool) : Han
   | .interpolated =>
       if projectInterpolated then (if projOK then some .projected else none)   -- realizeAndProjectKinematicsWithThrow
       else some .prescribed
-  | .backedUp => if projectInterpolated then (if projOK then some .projected else none) else some .prescribed
+  | .backedUp => if projOK then some .projected else none                      -- ignores the user's request not to project
 end
 
 /-- what one `Integrator::stepTo` call does to the provenance bookkeeping -/
